@@ -170,7 +170,25 @@ def runOps (norm : Nm → Nm) (n : Nat) (s : State Nm Cp) (acc : List String) : 
       let r := step norm s now op
       runOps norm n r.1 ((showRes r.2 ++ "#" ++ dump n r.1) :: acc) rest
 
+/-- `delretry <normtable> <name> <xyz> <children>;;<children>;;…` : `Deleter.modify` through the retry loop, first on
+    the first children list (first_time = True), then on each further one (first_time = False) -/
+def childrenOfEntries (l : List (Nm × Node Cp × Option Meta)) : Children Nm Cp :=
+  l.filterMap (fun e => match e.2.2 with | some m => some (e.1, (e.2.1, m)) | none => none)
+
+def handleDelRetry (tbl name flags : String) (reads : String) : String :=
+  match parseNorm tbl, flags.toList, (reads.splitOn "^").mapM parseEntries with
+  | some t, [a, b, c], some (first :: more) =>
+    (match parseBool a.toString, parseBool b.toString, parseBool c.toString with
+     | some me, some mbd, some mbf =>
+       (match retryLoop (fun ft x => deleterModifyFT (normOf t) ft name me mbd mbf x) true
+                (childrenOfEntries first) (more.map childrenOfEntries) with
+        | .ok (ch, old) => "ok:" ++ (match old with | some n => showNode n | none => "N") ++ "#" ++ showChildren ch
+        | .error e => "err:" ++ showErr e)
+     | _, _, _ => "bad-op")
+  | _, _, _ => "bad-op"
+
 def handle : List String → String
+  | ["delretry", tbl, name, flags, reads] => handleDelRetry tbl name flags reads
   | "hist" :: nd :: tbl :: ops =>
     match nd.toNat?, parseNorm tbl with
     | some n, some t =>
